@@ -190,37 +190,47 @@ def check_mc(spec):
 
 def _independent_model(qp, np, plops, swires, f):
     """Exact expectation of the documented estimator 8^K c_s f(bits) prod(sigma) if every measurement of every fragment
-    tape is sampled independently from its own marginal (reference simulation of the fragment tapes)."""
-    from mc.explore import Chooser
-    from mc.seams import ScriptedGenerator, own_numpy_rng
+    is sampled independently from its own marginal.  Fragments come from the public graph functions (tape_to_graph /
+    fragment_graph / graph_to_tape); the eight (measurement, preparation) settings are written here from Peng et al.:
+    s = 0..7 -> measure I,I,X,X,Y,Y,Z,Z and prepare |0>,|1>,|+>,|->,|+i>,|-i>,|0>,|1> with weights +,+,+,-,+,-,+,- 1/2."""
     from mc import refsim as RS
     from mc import refgates as RG
 
     evals = (0.5, 0.5, 0.5, -0.5, 0.5, -0.5, 0.5, -0.5)
+    prep_u = [RG.I2, RG.X, RG.H, RG.H @ RG.X, RG.S @ RG.H, RG.S @ RG.H @ RG.X, RG.I2, RG.X]
+    meas_m = [RG.I2, RG.I2, RG.X, RG.X, RG.Y, RG.Y, RG.Z, RG.Z]
     tape0 = qp.tape.QuantumScript(plops, [qp.sample(wires=swires)], shots=1)
-    K = sum(1 for o in plops if o.name == "WireCut")
+    g = qp.qcut.tape_to_graph(tape0)
+    qp.qcut.replace_wire_cut_nodes(g)
+    frags, cg = qp.qcut.fragment_graph(g)
+    ftapes = [qp.qcut.graph_to_tape(fr) for fr in frags]
+    pairs = [e[-1] for e in cg.edges.data("pair")]
+    uid_to_pair = {}
+    for k_, pr in enumerate(pairs):
+        uid_to_pair[pr[0].obj.node_uid] = k_
+        uid_to_pair[pr[1].obj.node_uid] = k_
+    K = len(pairs)
+    out_deg = [d for _, d in cg.out_degree]
     total = 0.0
     for setting in itertools.product(range(8), repeat=K):
-        gen = ScriptedGenerator(Chooser(list(setting)))
-        with own_numpy_rng(gen):
-            tapes, _ = qp.cut_circuit_mc(tape0, classical_processing_fn=f, device_wires=qp.wires.Wires([0, 1, 2]))
-        bit_p1, sig_mean = [], 1.0
-        mids = []
-        for t in tapes:
+        bit_p1, mids = [], []
+        for t in ftapes:
             order = list(t.wires)
-            st = RS.run_state(list(t.operations), order)
-            term, mid = [], []
-            for m in t.measurements:
-                name = m.obs.name
-                ax = [order.index(w) for w in m.obs.wires]
-                if name == "Projector":
-                    term.append(float(RS.probs_of(st, ax)[1]))
-                elif name == "Identity":
-                    mid.append(1.0)
+            n = len(order)
+            st = RS.zero_state(n)
+            mnodes = []
+            for op in t.operations:
+                if op.name == "PrepareNode":
+                    st = RS.apply_matrix(st, prep_u[setting[uid_to_pair[op.node_uid]]], [order.index(op.wires[0])], n)
+                elif op.name == "MeasureNode":
+                    mnodes.append((order.index(op.wires[0]), meas_m[setting[uid_to_pair[op.node_uid]]]))
                 else:
-                    mid.append(RS.expval(st, {"PauliX": RG.X, "PauliY": RG.Y, "PauliZ": RG.Z}[name], ax).real)
-            bit_p1 += term
-            mids += mid
+                    st = RS.apply_matrix(st, RS.op_matrix(op), [order.index(w) for w in op.wires], n)
+            for m in t.measurements:
+                for w in m.wires:
+                    bit_p1.append(float(RS.probs_of(st, [order.index(w)])[1]))
+            for ax, M in mnodes:
+                mids.append(RS.expval(st, M, [ax]).real)
         ef = 0.0
         for bits in itertools.product((0, 1), repeat=len(bit_p1)):
             pr = 1.0
@@ -230,7 +240,7 @@ def _independent_model(qp, np, plops, swires, f):
         c = 1.0
         for s_ in setting:
             c *= evals[s_]
-        total += (1.0 / 8 ** K) * (8 ** K) * c * ef * float(np.prod(mids))
+        total += c * ef * float(np.prod(mids)) if mids else c * ef
     return total
 
 
